@@ -76,8 +76,7 @@ def drain_to_completion(world, prs0, label, out, rounds=5):
             observe(world, prs0, '%s/drain%d/pr%d:%s' % (
                 label, rnd, p['id'], rec['status']), out)
             if rec['status'] in RESET_STATUSES:
-                world.run('rebuild_queues', record=False)
-                world.drain()
+                queue_reset(world, prs0, out)
         refs1 = world.refs()[0]
         qs = [n for n in sorted(refs1) if n.startswith('q/')]
         for n in qs:
@@ -88,10 +87,24 @@ def drain_to_completion(world, prs0, label, out, rounds=5):
             observe(world, prs0, '%s/drain%d/queue:%s' % (
                 label, rnd, rec['status']), out)
             if rec['status'] in RESET_STATUSES:
-                world.run('rebuild_queues', record=False)
-                world.drain()
+                queue_reset(world, prs0, out)
         if world.refs()[0] == refs0:
             break
+
+
+def queue_reset(world, prs0, out):
+    """the documented queue reset: the rebuild-queues job; if that job itself
+    fails, the delete-queues job (the pull requests are then re-evaluated by
+    the drain)"""
+    r = world.run('rebuild_queues', record=False)
+    world.drain()
+    observe(world, prs0, 'after-rebuild:%s' % r['status'], out)
+    if r['status'] == 'JobSuccess':
+        return 'rebuild'
+    r2 = world.run('delete_queues', record=False)
+    world.drain()
+    observe(world, prs0, 'after-delete-queues:%s' % r2['status'], out)
+    return 'rebuild(%s)+delete-queues(%s)' % (r['status'], r2['status'])
 
 
 # ---------------------------------------------------------------------------
@@ -159,14 +172,12 @@ def faulty_child(world, event, fail_from_rel=None, reject=None):
         observe(world, prs0, 'redelivered:%s' % rec2['status'], out)
         res['recovery_status'] = rec2['status']
         if rec2['status'] in RESET_STATUSES:
-            r3 = world.run('rebuild_queues', record=False)
-            world.drain()
-            observe(world, prs0, 'after-rebuild:%s' % r3['status'], out)
+            r3 = queue_reset(world, prs0, out)
             rec4 = world.run(kind, arg, record=False, **kw)
             world.drain()
             observe(world, prs0, 'redelivered-again:%s' % rec4['status'],
                     out)
-            res['recovery_status'] += '+rebuild+' + rec4['status']
+            res['recovery_status'] += '+%s+%s' % (r3, rec4['status'])
         drain_to_completion(world, prs0, 'recovery', out)
         res['trees'] = dest_trees(world)
         res['open_prs'] = [p['id'] for p in user_prs(world.snapshot())
@@ -271,3 +282,140 @@ def report(world, event, acc, label, placement, v, res):
          'event': list(event), 'placement': placement, 'violation': v,
          'statuses': {k: res.get(k) for k in ('fault_status',
                                               'recovery_status', 'status')}})
+
+
+# ---------------------------------------------------------------------------
+# C08: one concurrent third-party action placed right before a push
+THIRD_ACTIONS = ('create-feature-branch', 'create-user-branch',
+                 'create-unclassified-branch', 'push-to-source',
+                 'amend-source', 'rewind-source')
+
+
+def prepare_third_party(world, action, src):
+    """Prepare, in a separate clone, the commit the third party will push, and
+    the script the shim runs.  Returns (script path, {ref: intended sha},
+    description) or None when the action does not apply."""
+    third = os.path.join(world.dir, 'third')
+    if not os.path.isdir(third):
+        world.git('clone', '-q', world.bare, third, cwd=world.dir)
+    world.git('fetch', '-q', '--prune', 'origin', cwd=third)
+    heads = world.refs()[0]
+    base = src if src in heads else sorted(
+        n for n in heads if oracle.is_dest(n))[0]
+    world.git('checkout', '-q', '--detach', 'origin/' + base, cwd=third)
+    if action.startswith('create-'):
+        name = {'create-feature-branch': 'feature/TEST-77-newcomer',
+                'create-user-branch': 'user/somebody/wip',
+                'create-unclassified-branch': 'sandbox'}[action]
+        world._write({'third_%s.txt' % action: 'x\n'}, cwd=third)
+        world.git('add', '-A', cwd=third)
+        world.git('commit', '-q', '-m', action, cwd=third, user='peer2')
+        sha = world.git('rev-parse', 'HEAD', cwd=third).stdout.strip()
+        refspec, expect = '%s:refs/heads/%s' % (sha, name), {name: sha}
+    else:
+        if src not in heads:
+            return None
+        if action == 'push-to-source':
+            world._write({'third_more.txt': 'x\n'}, cwd=third)
+            world.git('add', '-A', cwd=third)
+            world.git('commit', '-q', '-m', 'more work', cwd=third,
+                      user='author')
+            sha = world.git('rev-parse', 'HEAD', cwd=third).stdout.strip()
+            refspec = '%s:refs/heads/%s' % (sha, src)
+        elif action == 'amend-source':
+            world.git('commit', '-q', '--amend', '-m', 'amended by author',
+                      cwd=third, user='author')
+            sha = world.git('rev-parse', 'HEAD', cwd=third).stdout.strip()
+            refspec = '+%s:refs/heads/%s' % (sha, src)
+        else:
+            sha = world.git('rev-parse', 'HEAD~1', cwd=third).stdout.strip()
+            refspec = '+%s:refs/heads/%s' % (sha, src)
+        expect = {src: sha}
+    script = os.path.join(world.dir, 'third.sh')
+    with open(script, 'w') as f:
+        f.write('"$VF_REAL_GIT" -C "%s" push -q origin "%s"\n'
+                % (third, refspec))
+    return script, expect, {'action': action, 'refspec': refspec}
+
+
+def third_party_child(world, event, rel_op, action, src):
+    kind, arg, kw = event
+
+    def child():
+        from vf.common.acc import Acc
+        prep = prepare_third_party(world, action, src)
+        if prep is None:
+            return {'skipped': True}
+        script, expect, desc = prep
+        op0 = world.shim.nops()
+        world.shim.set(before_op=op0 + rel_op, before_script=script)
+        rec = world.run(kind, arg, record=False, **kw)
+        world.shim.clear()
+        acc = Acc()
+        # did the third-party push happen (and succeed)?
+        ran = all(world.tip_history.get(n) and
+                  sha in world.tip_history.get(n, [])
+                  for n, sha in expect.items())
+        happened = world.shim.nops() >= op0 + rel_op
+        log = ''
+        try:
+            with open(os.path.join(world.shim.dir, 'before.log')) as f:
+                log = f.read()[-300:]
+        except OSError:
+            pass
+        ctx = {'action': action, 'third_party': desc}
+        monitors.c08_ownership(world, rec, acc, ctx,
+                               expected_foreign=expect if happened else {})
+        return {'status': rec['status'], 'happened': happened,
+                'third_log': log,
+                'violations': acc.violations, 'desc': desc,
+                'summary': rec_summary(rec)}
+    return fork_try(world, child)
+
+
+def explore_c08(world, event, acc, label, src, max_children=40):
+    ref = reference_child(world, event, drain=False)
+    if 'inconclusive' in ref:
+        acc.count('c08_reference_inconclusive')
+        acc.notes.append('reference child: %s' % ref['inconclusive'][:300])
+        return
+    pushes = [o for o in ref['ops'] if o['kind'] == 'push']
+    acc.count('c08_explored_jobs')
+    acc.seen('c08_explored_job_kinds', '%s:%s:%s' % (label, event[0],
+                                                     ref['status']))
+    n = 0
+    for o in pushes:
+        form = 'all-prune' if '--all' in o['what'] else \
+            'delete' if ' :' in o['what'] else 'named'
+        for action in THIRD_ACTIONS:
+            if n >= max_children:
+                acc.count('c08_placements_skipped')
+                continue
+            n += 1
+            res = third_party_child(world, event, o['rel'], action, src)
+            acc.evals += 1
+            if 'inconclusive' in res:
+                acc.count('c08_children_inconclusive')
+                acc.notes.append('c08 child: %s' % res['inconclusive'][:200])
+                continue
+            if res.get('skipped') or not res['happened']:
+                acc.count('c08_placements_not_reached')
+                continue
+            acc.count('c08_placements_reached')
+            acc.nontrivial('%s|%s|%s|%s' % (label, event[0], form, action))
+            acc.seen('c08_outcomes_with_third_party',
+                     '%s/%s->%s' % (form, action, res['status']))
+            for v in res['violations']:
+                v['witness']['event'] = list(event)
+                v['witness']['placement'] = {'before_push': o['rel'],
+                                             'push': o['what'],
+                                             'action': action}
+                acc.violation(v['mechanism'], '%s before push %d (%s): %s'
+                              % (action, o['rel'], o['what'][:60],
+                                 v['desc']), v['witness'])
+            if not res['violations'] and len(acc.samples) < 5:
+                acc.sample({'config': world.config(), 'explored': label,
+                            'event': list(event), 'push': o['what'],
+                            'third_party': res['desc'],
+                            'job_status': res['status'],
+                            'foreign_ref_intact': True})
